@@ -415,7 +415,7 @@ def produce_lines(group, tier, seed, release=False, timeout=3000):
     return out_path, ""
 
 
-def produce_lines_miri(group, seed, timeout=3000, mode="miri"):
+def produce_lines_miri(group, seed, timeout=3000, mode="miri", sections=None):
     """run the harness group's reduced case list under Miri (thorough tier, supporting evidence
     for the runtime half of C01): returns (lines path | None, error)."""
     os.makedirs(BUILD, exist_ok=True)
@@ -426,13 +426,19 @@ def produce_lines_miri(group, seed, timeout=3000, mode="miri"):
         link_repo()
         with open(out_path, "w") as f:
             try:
-                p = subprocess.run(["cargo", "+nightly", "miri", "run", "--offline", "-q", "--", group, mode, str(seed)],
+                p = subprocess.run(["cargo", "+nightly", "miri", "run", "--offline", "-q", "--", group, mode, str(seed)] + ([",".join(sections)] if sections else []),
                                    cwd=harness_crate(), stdout=f, stderr=subprocess.PIPE, env=env, timeout=timeout)
             except subprocess.TimeoutExpired:
                 return None, "miri run timed out"
     if p.returncode != 0:
         err = p.stderr.decode(errors="replace")
         m = re.search(r"error: Undefined Behavior:[^\n]*(?:\n[^\n]*){0,12}", err)
+        if not m:
+            # the nightly const evaluator used for the Miri build validates more than stable's:
+            # an invalid value / out-of-bounds access inside a constant of the harness is UB too
+            m2 = re.search(r"error\[E0080\][^\n]*(?:\n[^\n]*){0,10}", err)
+            if m2:
+                return None, "Miri: error: Undefined Behavior: (during const evaluation in the Miri build) " + m2.group(0)
         return None, "Miri: " + (m.group(0) if m else err[-1500:])
     return out_path, ""
 
